@@ -17,6 +17,8 @@ type Head struct {
 	Commit    *object.Commit
 }
 
+const headRefPrefix = "ref: refs/heads/"
+
 var (
 	headRegexp     = regexp.MustCompile("ref: refs/heads/.+")
 	ErrInvalidHead = errors.New("error: invalid HEAD format")
@@ -59,9 +61,8 @@ func NewHead(rootGoitPath string) (*Head, error) {
 		if ok := headRegexp.MatchString(headString); !ok {
 			return nil, ErrInvalidHead
 		}
-		headSplit := strings.Split(headString, ": ")
-		slashSplit := strings.Split(headSplit[1], "/")
-		branch := slashSplit[len(slashSplit)-1]
+		// the branch name is everything after the prefix: it may itself contain ": "
+		branch := headString[strings.Index(headString, headRefPrefix)+len(headRefPrefix):]
 		head.Reference = branch
 
 		// get commit from branch
